@@ -44,6 +44,9 @@ package service
 //@        && !(APReq.Authenticator.CTime.Add(int64(APReq.Authenticator.Cusec) * 1000).Sub(now#2) > ite(s.maxClockSkew == 0, 300000000000, s.maxClockSkew))
 //@   ensures ok ==> names_equal(creds.cname, APReq.Ticket.DecryptedEncPart.CName) && creds.realm == APReq.Ticket.DecryptedEncPart.CRealm
 //@        && creds.validUntil == APReq.Ticket.DecryptedEncPart.EndTime && creds.authenticated
+//@   ensures ok ==> !lastIsReplay
+//@   ensures ok && !s.disablePACDecoding ==> !lastPACBad
+//@   ensures creds == nil && krberr(err, 34) ==> lastIsReplay
 // Completeness direction: refusal always carries an error, and a refusal before the identity is built carries an
 // RFC 4120 error code only when that code's condition holds (skew is the configured or default five minutes).
 //@   ensures !ok ==> err != nil
@@ -58,8 +61,14 @@ package service
 // Replay cache as seen by VerifyAPREQ (its own contract is property C02): only the cache's own maps change.
 //@ func (*service.Cache).IsReplay(c, sname, a) (r)
 //@   modifies entries(c.entries)
+//@   sets lastIsReplay := r
 //@   trusted_frame the inner per-client maps are reached through map values; nothing outside the cache is written
 //@ func service.GetReplayCache(d) (c)
 //@   pure
 //@   trusted_frame process-wide singleton created under sync.Once
 //@   ensures c != nil
+
+// Ghost record of the last replay-cache decision and PAC outcome, so that VerifyAPREQ's postcondition can say that
+// an accepted request was checked against the cache and found new (the cache's own behaviour is property C02).
+//@ ghost lastIsReplay bool
+//@ ghost lastPACBad bool
